@@ -77,7 +77,18 @@ def route_of(path_segments):
     return [(p, l) for (_, p, l) in path_segments]
 
 
-def expect(rep, t, dev, d, kw, want, reply=(0, [], b""), sig="delivery", dtype_ref=None, rp=None):
+def wire_segment(kind, given):
+    """The logical segment a given id asks for: an int takes the narrowest format, bytes are the value field as given (their
+    length is the 8/16/32-bit format the caller chose)."""
+    from vmc.ref import epath as EP
+
+    if isinstance(given, int):
+        return EP.logical(kind, given)
+    w = len(given)
+    return bytes([0x20 | EP.LOGICAL_CODE[kind] << 2 | {1: 0, 2: 1, 4: 2}[w]]) + (b"\x00" if w > 1 else b"") + given
+
+
+def expect(rep, t, dev, d, kw, want, reply=(0, [], b""), sig="delivery", dtype_ref=None, rp=None, raw_path=None):
     """Issue one generic_message and compare the target's log entry and the returned Tag."""
     from pycomm3.cip import SERVICE_STATUS
 
@@ -99,6 +110,8 @@ def expect(rep, t, dev, d, kw, want, reply=(0, [], b""), sig="delivery", dtype_r
             for name, a, b in zip(("transport", "service", "path", "data", "route"), got, want):
                 if a != b:
                     problems.append(f"{name}: target saw {a!r:.80}, requested {b!r:.80}")
+        if raw_path is not None and bytes(e["raw_path"]) != raw_path:
+            problems.append(f"path bytes: target saw {bytes(e['raw_path']).hex(' ')}, the ids as given are {raw_path.hex(' ')}")
         tag = r[1]
         st, ext, rdata = reply
         if st == 0:
@@ -260,7 +273,8 @@ def run_shard(shard, tier, seed):
                     if (c, i) == (6, 1):
                         continue
                     want = (tr, 0x0E, path_of(c, i, an), b"\xAB", droute if tr == "ucsend" else None)
-                    expect(rep, t, dev, d, kw, want, reply=(0, [], b"ok"), sig=f"delivery/path/{tr}", rp=("ids", c, i, cf, if_, repr(a), tr))
+                    raw = wire_segment("class", cv) + wire_segment("instance", iv) + (wire_segment("attribute", a) if a is not None else b"")
+                    expect(rep, t, dev, d, kw, want, reply=(0, [], b"ok"), sig=f"delivery/path/{tr}", rp=("ids", c, i, cf, if_, repr(a), tr), raw_path=raw)
         rep.sample({"class_instance_attribute": "boundary product", "transport": tr})
     elif k == "datalen":
         w, t, dev, d = new_driver()
